@@ -871,7 +871,10 @@ def execute(spec):
                         lib_error = str(e)[-300:]
                     finally:
                         shutil.rmtree(refdir.path, ignore_errors=True)
-                    if lib_error is None:
+                    # only the one library refusal observed on the unchanged tree is excused (DESIGN section 10, observations); any
+                    # other step that fails in both front-end and library is still reported: a workflow that worked must keep working
+                    excused = (lib_error is not None and mode == "tdispmat" and "AssertionError" in (rA["exc"] or "") and "thermal_displacement.py" in (rA["exc"] or ""))
+                    if not excused:
                         V("workflow-step-failed", label, code=rA["code"], exc=rA["exc"], stdout=rA["stdout"][-500:], argv=rA["argv"])
                     else:
                         probes["step_fails_in_the_library_call_too:%s" % mode] = probes.get("step_fails_in_the_library_call_too:%s" % mode, 0) + 1
